@@ -46,13 +46,52 @@ def differs(exe):
     return f
 
 
+def context_for(exe, cases, n):
+    """The case `cases[n]` disagrees only in the run of the whole list: find the fewest earlier cases (same process,
+    same order) after which it still does. Returns the list of cases (context + the case) or None."""
+    c = cases[n]
+
+    def fails(ctx):
+        seq = list(ctx) + [c]
+        i = vlib.run_cases([exe], seq)[-1]
+        m = vlib.run_cases(vlib.driver_cmd(), [c])[0]
+        return vlib.canon(i) != vlib.canon(vlib.res_of(m))
+    prefix = cases[:n]
+    if not fails(prefix):
+        return None
+    return vlib.ddmin(prefix, fails) + [c]
+
+
 def check_correspondence(R, exe, cases, prop_text, max_report=4):
     """impl vs model on all cases; returns (impl, model, n_bad). Violations are shrunk and recorded."""
     impl, model = run_both(exe, cases)
-    bad = [(c, i, m) for c, i, m in zip(cases, impl, model) if vlib.canon(i) != vlib.canon(vlib.res_of(m))]
+    bad = [(n, c, i, m) for n, (c, i, m) in enumerate(zip(cases, impl, model))
+           if vlib.canon(i) != vlib.canon(vlib.res_of(m))]
     f = differs(exe)
-    for c, i, m in bad[:max_report]:
-        sc = shrink_ops(exe, c, f) if f(c) else c
+    for n, c, i, m in bad[:max_report]:
+        if not f(c):
+            # every case builds its own factory and repository: a disagreement that needs earlier cases of the same
+            # process means state survives outside them (package-level caches shared between rule sets / instances)
+            seq = context_for(exe, cases, n)
+            if seq is not None:
+                si = vlib.run_cases([exe], seq)[-1]
+                sm = vlib.res_of(vlib.run_cases(vlib.driver_cmd(), [c])[0])
+                k, a, b = first_diff(c, si, sm)
+                op = c["ops"][k] if isinstance(k, int) and 0 <= k < len(c["ops"]) else None
+                R.violation(f"{prop_text}: implementation {json.dumps(a)[:200]} vs proved model {json.dumps(b)[:200]} at "
+                            f"{json.dumps(op)[:300]} — only after {len(seq) - 1} earlier rule set histories were loaded "
+                            f"in the same process (state shared between independent repositories / factories)",
+                            {"cases": seq, "impl_last": si, "model_last": sm, "kind": "impl-vs-model-in-process-context"},
+                            no_input=False)
+                continue
+            k, a, b = first_diff(c, i, vlib.res_of(m))
+            op = c["ops"][k] if isinstance(k, int) and 0 <= k < len(c["ops"]) else None
+            R.violation(f"{prop_text}: implementation {json.dumps(a)[:200]} vs proved model {json.dumps(b)[:200]} at "
+                        f"{json.dumps(op)[:300]} (seen in the run of all cases, not reproduced alone)",
+                        {"case": c, "impl": i, "model": vlib.res_of(m), "kind": "impl-vs-model-not-reproduced-alone"},
+                        no_input=False)
+            continue
+        sc = shrink_ops(exe, c, f)
         si = vlib.run_cases([exe], [sc])[0]
         sm = vlib.res_of(vlib.run_cases(vlib.driver_cmd(), [sc])[0])
         k, a, b = first_diff(sc, si, sm)
@@ -75,11 +114,12 @@ def replay(R, path):
     with open(path) as fh:
         p = json.load(fh)
     exe = vlib.step_harness(R)
-    c = p["case"]
-    i = vlib.run_cases([exe], [c])[0]
+    seq = p["cases"] if "cases" in p else [p["case"]]
+    c = seq[-1]
+    i = vlib.run_cases([exe], seq)[-1]
     m = vlib.res_of(vlib.run_cases(vlib.driver_cmd(), [c])[0])
     print("impl :", json.dumps(i))
     print("model:", json.dumps(m))
     R.coverage.update({"obligations": 1, "discharged": 1, "checker_cmd": "replay", "trusted_base": []})
     if vlib.canon(i) != vlib.canon(m):
-        R.violation("replay still differs", {"case": c, "impl": i, "model": m})
+        R.violation("replay still differs", {"cases": seq, "impl": i, "model": m})
